@@ -1,6 +1,7 @@
 import Pycoin.Driver.Core
 import Pycoin.Model.RealEnv
 import Pycoin.Model.ScriptTools
+import Pycoin.Model.TxInAddr
 /-!
 C08 ops.  Networks are named by their module under pycoin/symbols (`btc`, `xtn`, …); text arguments travel as the
 hex of their UTF-8 bytes.  `realEnv` (Model/RealEnv.lean) plugs the C11 codec models and the hash models into the address model.
@@ -152,6 +153,15 @@ def handle : Handler := fun op args =>
         ++ " asm=" ++ (match sc with
           | .ok b => hx (Pycoin.Script.utf8 (Pycoin.Script.disassemble b))
           | .error e => "err:" ++ e.tag))
+  -- TxIn(...).public_key_sec() / .address(network.address): `cb` = 1 for the null outpoint
+  | "c08txin", [net, cb, script] => do
+    let net ← findNet net
+    let script ← parseHex? script
+    let sec := match txInPublicKeySec (cb = "1") script with
+      | .ok (some b) => hx b | .ok none => "None" | .error e => "err:" ++ e.tag
+    let ad := match txInAddress realEnv net (cb = "1") script with
+      | .ok (some a) => a | .ok none => "None" | .error e => "err:" ++ e.tag
+    some s!"ok sec={sec} address={ad}"
   | "c08compile", [text] => do
     some (showBytesR (compileText (← parseText? text)))
   | _, _ => none
